@@ -177,3 +177,14 @@ Definition fb_may_contain (P : policy) (data : bytes) (offset : N) (key : bytes)
   | None => Some true
   | Some b => fb_contains P b offset key
   end.
+
+(* Reader.find's use of the filter, abstracted from the rest of the table: [unfiltered] is what the
+   lookup in the data block at [offset] yields for [key] when no filter is consulted (None = not
+   found).  With a filter: if !filterBlock.contains(...) { return ErrNotFound }; otherwise go on. *)
+Definition find_with_filter {A} (P : policy) (data : bytes) (offset : N) (key : bytes)
+    (unfiltered : option A) : option (option A) :=
+  match fb_may_contain P data offset key with
+  | None => None                 (* the policy's Contains panicked *)
+  | Some false => Some None      (* ErrNotFound *)
+  | Some true => Some unfiltered
+  end.
